@@ -63,7 +63,9 @@ func Seed() int {
 func New(prop, level string) *Run {
 	r := &Run{Prop: prop, Tier: Tier(), Level: level, Seed: Seed(), Coverage: map[string]any{}, start: time.Now(),
 		known: map[string]Finding{}, knownHit: map[string]int{}, unknown: map[string]string{}}
-	_ = os.RemoveAll(filepath.Join(Root, "replays", prop))
+	if os.Getenv("VERIF_EVIDENCE_DIR") == "" {
+		_ = os.RemoveAll(filepath.Join(Root, "replays", prop))
+	}
 	var kf knownFile
 	if b, err := os.ReadFile(filepath.Join(Root, "known_findings.json")); err == nil {
 		if err := json.Unmarshal(b, &kf); err != nil {
@@ -136,8 +138,12 @@ func (r *Run) Finish() int {
 		"wall_s": time.Since(r.start).Seconds(), "violations": r.unknownN,
 	}
 	b, _ := json.MarshalIndent(ev, "", " ")
-	_ = os.MkdirAll(filepath.Join(Root, "evidence"), 0o755)
-	if err := os.WriteFile(filepath.Join(Root, "evidence", r.Prop+".json"), b, 0o644); err != nil {
+	evDir := filepath.Join(Root, "evidence")
+	if d := os.Getenv("VERIF_EVIDENCE_DIR"); d != "" { // trial runs that must not replace the committed evidence
+		evDir = d
+	}
+	_ = os.MkdirAll(evDir, 0o755)
+	if err := os.WriteFile(filepath.Join(evDir, r.Prop+".json"), b, 0o644); err != nil {
 		fmt.Fprintf(os.Stderr, "HARNESS-ERROR: cannot write evidence: %v\n", err)
 		return 2
 	}
